@@ -6,6 +6,7 @@ import (
 	"net"
 	"time"
 
+	"github.com/segmentio/kafka-go/protocol"
 	plistoffsets "github.com/segmentio/kafka-go/protocol/listoffsets"
 	pmetadata "github.com/segmentio/kafka-go/protocol/metadata"
 	poffsetcommit "github.com/segmentio/kafka-go/protocol/offsetcommit"
@@ -417,4 +418,67 @@ func VH_C19_ClientOffsetCommit(T, P int) {
 		}
 	}
 	vhReach("c19-client-offsetcommit")
+}
+
+// ListOffsets fan-out: Request.Split produces one sub-request per topic/partition; Response.Merge puts the
+// answers back together. One sub-request fails at transport level (unreachable leader), anywhere.
+func VH_C19_ListOffsetsSplitMerge(T, P int) {
+	req := &plistoffsets.Request{ReplicaID: -1}
+	type key struct {
+		t string
+		p int32
+	}
+	asked := map[key]int64{}
+	for t := 0; t < T; t++ {
+		rt := plistoffsets.RequestTopic{Topic: vhTopicName(t)}
+		for p := 0; p < P; p++ {
+			ts := vhInt64("timestamp")
+			rt.Partitions = append(rt.Partitions, plistoffsets.RequestPartition{Partition: int32(p), Timestamp: ts})
+			asked[key{rt.Topic, int32(p)}] = ts
+		}
+		req.Topics = append(req.Topics, rt)
+	}
+	msgs, merger, err := req.Split(protocol.Cluster{})
+	vhAssert(err == nil && len(msgs) == T*P, "one-sub-request-per-topic-partition")
+	failing := vhChoose("unreachable_leader", len(msgs))
+	results := make([]interface{}, len(msgs))
+	offsets := map[key]int64{}
+	for i, m := range msgs {
+		sub := m.(*plistoffsets.Request)
+		vhAssert(len(sub.Topics) == 1 && len(sub.Topics[0].Partitions) == 1, "sub-request-names-exactly-one-partition")
+		k := key{sub.Topics[0].Topic, sub.Topics[0].Partitions[0].Partition}
+		vhAssert(sub.Topics[0].Partitions[0].Timestamp == asked[k], "sub-request-carries-the-requested-timestamp")
+		if i == failing {
+			results[i] = vhErrCoordinator
+			offsets[k] = -1
+			continue
+		}
+		off := vhInt64("offset")
+		offsets[k] = off
+		results[i] = &plistoffsets.Response{Topics: []plistoffsets.ResponseTopic{{Topic: k.t, Partitions: []plistoffsets.ResponsePartition{{Partition: k.p, Timestamp: -1, Offset: off}}}}}
+	}
+	fk := func() key {
+		sub := msgs[failing].(*plistoffsets.Request)
+		return key{sub.Topics[0].Topic, sub.Topics[0].Partitions[0].Partition}
+	}()
+	out, merr := merger.Merge(msgs, results)
+	vhAssert(merr == nil && out != nil, "merge-succeeds-when-some-sub-requests-succeeded")
+	res := out.(*plistoffsets.Response)
+	vhAssert(len(res.Topics) == T, "every-topic-present-in-the-merged-response")
+	for t := 0; t < T && t < len(res.Topics); t++ {
+		rt := res.Topics[t]
+		vhAssert(rt.Topic == vhTopicName(t), "topics-sorted-by-name")
+		vhAssert(len(rt.Partitions) == P, "every-partition-present-in-the-merged-response")
+		for p := 0; p < P && p < len(rt.Partitions); p++ {
+			rp := rt.Partitions[p]
+			k := key{rt.Topic, int32(p)}
+			vhAssert(rp.Partition == int32(p), "partitions-sorted")
+			if k == fk {
+				vhAssert(rp.ErrorCode != 0, "failure-reported-on-its-partition")
+			} else {
+				vhAssert(vhAll(rp.ErrorCode == 0, rp.Offset == offsets[k], rp.Timestamp == asked[k]), "other-partitions-report-their-own-offset-and-requested-timestamp")
+			}
+		}
+	}
+	vhReach("c19-listoffsets-split-merge")
 }
